@@ -395,11 +395,56 @@ func rulePerRegionLeader(c *Ctx) {
 	}
 }
 
+// ruleHistoryReset: a re-base of the change log clears the whole ring — head,
+// tail, index and the flush countdown — or stale records stay in the window;
+// and the log's index is persisted in this member's own region storage, not in
+// the store shared by all members.
+func ruleHistoryReset(c *Ctx) {
+	P := c.P
+	rule := c.Prop + "/history"
+	const rs = "server/region_syncer"
+	reset := P.Method(rs, "historyBuffer", "ResetWithIndex")
+	var evs []Ev
+	for _, f := range []string{"head", "tail", "index", "flushCount"} {
+		fld := P.Field(rs, "historyBuffer", f)
+		name := f
+		evs = append(evs, &calledEv{name: "h." + name + " assigned", match: func(x ssa.Instruction) bool { return isStoreToField(x, fld) }})
+	}
+	c.need(rule, reset, "return", func(x ssa.Instruction) bool { _, ok := x.(*ssa.Return); return ok }, evs, all,
+		"ResetWithIndex assigns head, tail, index and flushCount")
+	for _, f := range []string{"head", "tail"} {
+		fld := P.Field(rs, "historyBuffer", f)
+		okZero := false
+		for _, st := range storesToField(reset, fld) {
+			if isConstInt(0)(st.Val) {
+				okZero = true
+			}
+		}
+		c.Check(okZero, rule, "h."+f+" in "+fnName(reset), "set to 0", P.pos(reset.Pos()), "")
+	}
+	nb := F(P.Func(rs, "newHistoryBuffer"))
+	getRS := F(P.Method("server/core", "Storage", "GetRegionStorage"))
+	sites, _ := c.nonScaffoldCallers(P.Func(rs, "newHistoryBuffer"))
+	n := 0
+	for _, s := range sites {
+		a := callArgs(s.Instr.Common())
+		if len(a) != 2 {
+			continue
+		}
+		n++
+		c.Check(derivesFrom(a[1], resultOfCall(getRS), 4), rule, "backend of the change log in "+fnName(s.Caller), "the member's own region storage (GetRegionStorage()), where the regions it describes are stored", P.instrPos(s.Instr), "")
+	}
+	_ = nb
+	if n == 0 {
+		c.Undec(rule, "newHistoryBuffer call sites", "at least one", "", "")
+	}
+}
+
 func init() {
 	register("C16", "Followers converge to the leader's region view through region sync", func(c *Ctx) {
 		c.Group("C16/slice-congruence", "at every SyncRegionResponse literal carrying regions, Regions / RegionStats / RegionLeaders are length-congruent on every path and loop iteration", func() { ruleSyncArrays(c) })
 		c.Group("C16/leader-placeholder", "a leaderless region is sent with an empty peer in its slot", func() { ruleLeaderPlaceholder(c) })
-		c.Group("C16/history", "change-log buffer: fields under its lock; index++ and flush accounting on every record, persisted every defaultFlushCount=100; RecordsFrom answers only inside the window and returns a copy", func() { ruleHistoryBuffer(c) })
+		c.Group("C16/history", "change-log buffer: fields under its lock; index++ and flush accounting on every record, persisted every defaultFlushCount=100; RecordsFrom answers only inside the window and returns a copy", func() { ruleHistoryBuffer(c); ruleHistoryReset(c) })
 		c.Group("C16/follower-apply", "the follower records a region only after put+save, indexes leaders/stats only under length guards, re-bases on index mismatch", func() { ruleFollowerApply(c); rulePerRegionLeader(c) })
 	})
 }
